@@ -30,7 +30,12 @@ def expand(o):
 
 def as_iterable(items, form):
     """The children argument in different iterable forms (the setter accepts any iterable)."""
-    form %= 5
+    form %= 6
+    if form == 5:
+        # a lazy iterable whose content depends on the tree at the time it is consumed: it yields the intended nodes only
+        # while they still have the parent they had when the call was made (the setter must consume it before it changes anything)
+        was = [(x, getattr(x, "parent", None)) for x in items]
+        return (x for x, p in was if getattr(x, "parent", None) is p)
     if form == 0:
         return list(items)
     if form == 1:
@@ -78,7 +83,7 @@ def perform(o, family, form=0):
             else:
                 objs[o["n"]].children = as_iterable([arg(x) for x in o["xs"]], form)
         elif k == "ct":
-            N.construct(family, o["n"], parent=arg(o["v"]), children=as_iterable([arg(x) for x in o["xs"]], form if form % 5 < 2 else 0) or None)
+            N.construct(family, o["n"], parent=arg(o["v"]), children=as_iterable([arg(x) for x in o["xs"]], form if form % 6 < 2 else 0) or None)
     except BaseException as e:  # noqa: the outcome is data
         if isinstance(e, (KeyboardInterrupt, SystemExit)):
             raise
@@ -91,7 +96,7 @@ def perform(o, family, form=0):
         postpar[o["n"]] = "Nil"
         postch[o["n"]] = []
     obs = dict(o)
-    obs.update(exc=exc, src=src, log=log, postpar=postpar, postch=postch, iterable_form=form % 5)
+    obs.update(exc=exc, src=src, log=log, postpar=postpar, postch=postch, iterable_form=form % 6)
     obs.pop("marks", None)
     return obs
 
@@ -147,7 +152,7 @@ def replay_chunk(args):
     for line in lines:
         vec = json.loads(json.loads(line))
         pred = expand(vec["o"])
-        form0 = zlib.crc32(line.encode()) % 5
+        form0 = zlib.crc32(line.encode()) % 6
         flags = {k: vec[k] for k in ("c01", "c02", "c03", "c03a", "c16")}
         observed = {}
         nonnode = pred["v"] == "NonNode" or "NonNode" in pred["xs"]
